@@ -45,6 +45,7 @@ type Contract struct {
 	Line     int
 	NoInline bool
 	GhostInc []string // ghost counters incremented by one on entry (ghost code of the function)
+	GhostSet map[string]int64 // ghost variables set on entry
 	Inl      bool // callers inline the body instead of using the contract
 	Witness  []string
 	Lemmas   []*Clause
@@ -194,7 +195,7 @@ func (e *Engine) loadContractFile(path, pkgShort string) error {
 		lines = append(lines, logical{t, i + 1})
 	}
 	isStart := func(s string) bool {
-		for _, k := range []string{"func ", "trusted func ", "interface ", "spec ", "ghostvar ", "requires", "ensures", "modifies", "loop ", "ghost ", "also", "pure", "noinline", "inline", "ghostinc ", "witness ", "lemma ", "assert", "at "} {
+		for _, k := range []string{"func ", "trusted func ", "interface ", "spec ", "ghostvar ", "requires", "ensures", "modifies", "loop ", "ghost ", "also", "pure", "noinline", "inline", "ghostinc ", "ghostset ", "witness ", "lemma ", "assert", "at "} {
 			if strings.HasPrefix(s, k) {
 				return true
 			}
@@ -282,6 +283,16 @@ func (e *Engine) loadContractFile(path, pkgShort string) error {
 			cur.Cases = append(cur.Cases, curCase)
 		case t == "pure":
 			cur.Pure = true
+		case strings.HasPrefix(t, "ghostset "):
+			w := strings.Fields(t)
+			if len(w) != 3 {
+				return fmt.Errorf("%s:%d: ghostset needs name and integer", path, l.line)
+			}
+			n, _ := strconv.Atoi(w[2])
+			if cur.GhostSet == nil {
+				cur.GhostSet = map[string]int64{}
+			}
+			cur.GhostSet[w[1]] = int64(n)
 		case strings.HasPrefix(t, "ghostinc "):
 			cur.GhostInc = append(cur.GhostInc, strings.TrimSpace(t[len("ghostinc "):]))
 		case t == "noinline":
